@@ -184,3 +184,57 @@ Definition delivered_by (o : outcome) : list row :=
   | _ => []
   end.
 Definition delivered (l : list obs) : list row := flat_map (fun o => delivered_by (fst o)) l.
+
+(* =====================================================================================
+   The region in which the implementation is claimed to refine the list model.  [op_ok] is evaluated on
+   the state of the (model of the) implementation just before the call.  It excludes
+   (D1) _only_one_row (first/one/one_or_none/scalar...) on a uniqued view whose seen-set is not empty,
+   (D2) _only_one_row on a CursorResult that is already soft-closed (exhausted) but not closed,
+   (D3) the use of a memoised getter (or memoised _unique_strategy) that captured another uniqueness
+        state than the view has now: ScalarResult.unique()/MappingResult.unique() after a fetch,
+   and, as a matter of domain, sizes below 1 and size-less fetchmany()/partitions() without yield_per. *)
+Definition ou_eqb (a b : option ustate) : bool :=
+  match a, b with
+  | None, None => true
+  | Some x, Some y => ustate_eqb x y
+  | _, _ => false
+  end.
+Definition getter_ok (g : slot) (v : view) : bool := ou_eqb (fst (use_getter g v)) (ufs v).
+Definition size_ok (n : option nat) (ypv : option nat) : bool :=
+  match n with
+  | Some n => 1 <=? n
+  | None => match ypv with Some y => 1 <=? y | None => false end
+  end.
+Definition seen_empty (h : heap) (v : view) : bool :=
+  match ufs v with
+  | Some u => match hget h (fst u) with [] => true | _ => false end
+  | None => true
+  end.
+Definition op_ok (i : istate) (o : op) : bool :=
+  let v := cur_view i in
+  let closed := hardc (fs i) in
+  match o with
+  | FetchOne => match kind v with VScalar => true | _ => closed || getter_ok GOne v end
+  | Next => closed || getter_ok GOne v
+  | IterFor _ => closed || getter_ok GIter v
+  | FetchMany n => size_ok n (yp i) && (closed || getter_ok GMany v)
+  | Partitions n k => (k =? 0) || (size_ok n (yp i) && (closed || getter_ok GMany v))
+  | All => closed || ou_eqb (eff_u v) (ufs v)
+  | OnlyOne w =>
+      let '(second, _, scalar) := oo_flags w in
+      match kind v, scalar with
+      | VScalar, true | VMapping, true => true
+      | _, _ => closed ||
+                ((negb second || ou_eqb (eff_u v) (ufs v))      (* D3 *)
+                 && seen_empty (hp i) v                          (* D1 *)
+                 && negb (softc (fs i)))                         (* D2 *)
+      end
+  | _ => true
+  end.
+Fixpoint guard_from (i : istate) (ops : list op) : bool :=
+  match ops with
+  | [] => true
+  | o :: t => op_ok i o && guard_from (fst (istep i o)) t
+  end.
+Definition guard (st : strategy) (w : nat) (rows : list row) (ops : list op) : bool :=
+  guard_from (init_state st w rows) ops.
